@@ -40,12 +40,13 @@ pub enum Rule {
     MutualRecursionPub, // R11 through a pub fn
     UnusedFn,        // R12
     PubFnNoParams,   // R13
+    PubFnNoParamsCalled, // R13, the fn is called by another pub fn
     RecursiveType,   // extra: a struct / enum that contains itself
     IndexNotUsize,   // extra: index of non-usize type
     AssignWrongType, // extra: assignment of a value of the wrong type
 }
 
-pub const ALL_RULES: [Rule; 32] = [
+pub const ALL_RULES: [Rule; 33] = [
     Rule::OperandKind,
     Rule::OperandWidth,
     Rule::CallArgReplace,
@@ -75,6 +76,7 @@ pub const ALL_RULES: [Rule; 32] = [
     Rule::MutualRecursionPub,
     Rule::UnusedFn,
     Rule::PubFnNoParams,
+    Rule::PubFnNoParamsCalled,
     Rule::RecursiveType,
     Rule::IndexNotUsize,
     Rule::AssignWrongType,
@@ -758,6 +760,22 @@ pub fn mutate(base: &Program, rule: Rule, k: usize) -> Option<(Program, String)>
             } else if m.hit() {
                 p.defs.add_enum("Eq", vec![("W", None), ("V", Some(vec![Ty::u8(), Ty::Enum("Eq".into())]))]);
                 m.mark("an enum that contains itself is added");
+            }
+        }
+        Rule::PubFnNoParamsCalled => {
+            // the parameterless pub fn is also called by the first fn; defined after / before its caller
+            for before in [false, true] {
+                if m.hit() {
+                    let nf = FnDef { is_pub: true, name: "second_q".into(), params: vec![], ret: Ty::u8(), body: vec![expr_stmt(lit_u8(1))] };
+                    p.fns[0].body.insert(0, let_("called_q", call("second_q", vec![])));
+                    if before {
+                        p.fns.insert(0, nf);
+                    } else {
+                        p.fns.push(nf);
+                    }
+                    m.mark(format!("a pub fn without parameters is added {} its caller", if before { "before" } else { "after" }));
+                    break;
+                }
             }
         }
         Rule::PubFnNoParams => {
